@@ -1,4 +1,7 @@
 //@ item src/list.rs / struct SourceEntry props=C01,C06
+//@ rw R6 1 <<pub(crate) struct SourceEntry>> => <<pub struct SourceEntry>>
+//@ rw R6 1 <<pub(crate) token: TokenInner,>> => <<pub token: TokenInner,>>
+//@ rw R6 1 <<pub(crate) source: Option>> => <<pub source: Option>>
 //@ pre
 #[verifier::reject_recursive_types(Data)]
 //@ enditem
@@ -9,9 +12,9 @@
 
 //@ region list_specs props=C01,C06,C15
 impl<'l, Data> SourceEntry<'l, Data> {
-    pub closed spec fn tok(&self) -> TokenInner { self.token }
-    pub closed spec fn vacant(&self) -> bool { self.source is None }
-    pub closed spec fn disp(&self) -> Option<Rc<dyn EventDispatcher<Data> + 'l>> { self.source }
+    pub open spec fn tok(&self) -> TokenInner { self.token }
+    pub open spec fn vacant(&self) -> bool { self.source is None }
+    pub open spec fn disp(&self) -> Option<Rc<dyn EventDispatcher<Data> + 'l>> { self.source }
 }
 impl<'l, Data> SourceList<'l, Data> {
     /// abstract view: the slot sequence
